@@ -54,6 +54,7 @@ func GenDaemon(prop string, seed uint64, tier string) *DaemonScenario {
 		r := NewRng(seed ^ 0xc02c02)
 		if r.Bool(60) {
 			sc.Backend, sc.MemSize = "memdb", r.Range(10, 13)
+			sc.OnlyCheckNodeInMemory = r.Bool(70)
 		}
 		if sc.Check == nil {
 			cp := &CheckPlan{AtMs: sc.HealAtMs - int64(r.Range(1, 3))*int64(sc.PeriodS)*1000, Node: r.Intn(sc.N)}
